@@ -31,15 +31,23 @@ Definition allows_unlabeled (w : wspec) : bool :=
 (* ---------- contracts of the draws + domain of the property ---------- *)
 Definition len_is {A} (n : nat) (l : list A) : bool := Nat.eqb (length l) n.
 
+Fixpoint bools_eqb (a b : list bool) : bool :=
+  match a, b with
+  | [], [] => true
+  | x :: a', y :: b' => Bool.eqb x y && bools_eqb a' b'
+  | _, _ => false
+  end.
+
 Definition contractb (w : wspec) (C : Z) (labels : list Z) : bool :=
   let n := length labels in
   match w with
   | WClassGroups p =>
-      (* domain: group size divides the class count; labelled samples only *)
-      (0 <? cg_cpg p) && (0 <? C) && (C mod cg_cpg p =? 0) && forallb (in_rangeb C) labels
+      (* domain: group size divides the class count; an unlabeled (-1) sample indexes the tables from the
+         end (numpy semantics) and so receives a real class of the last group *)
+      (0 <? cg_cpg p) && (0 <? C) && (C mod cg_cpg p =? 0) && forallb (label_okb true C) labels
       && (if cg_shuffle p then forallb (in_rangeb (ceil_div C (cg_cpg p))) (cg_draw p) else true)
   | WSuperclass p =>
-      (0 <? sc_cps p) && (1 <=? sc_splits p) && forallb (in_rangeb C) labels
+      (0 <? sc_cps p) && (1 <=? sc_splits p) && (0 <? C) && forallb (label_okb true C) labels
       && (if sc_shuffle p then forallb (in_rangeb C) (sc_perm p) else true)
   | WSwap p =>
       len_is n (sw_apply p) && len_is n (sw_new p) && forallb (in_rangeb C) (sw_new p)
@@ -48,7 +56,11 @@ Definition contractb (w : wspec) (C : Z) (labels : list Z) : bool :=
   | WAllgather W => (1 <=? W)%nat && (W <=? n)%nat && forallb (label_okb true C) labels
   | WPseudo (PLHard pl) => len_is n pl && forallb (label_okb true C) pl
   | WPseudo (PLSoft am) => len_is n am && forallb (in_rangeb C) am
-  | WPseudo (PLThr am above) => len_is n am && len_is n above && forallb (in_rangeb C) am
+  (* both accessors decide "confidence > threshold" exactly as the rule does (a float comparison on the
+     same row and threshold has one outcome, whichever code path evaluates it) *)
+  | WPseudo (PLThr am ref dec_item dec_bulk) =>
+      len_is n am && len_is n ref && forallb (in_rangeb C) am
+      && bools_eqb dec_item ref && bools_eqb dec_bulk ref
   | WPseudo (PLTopk topk choice) =>
       len_is n topk && len_is n choice
       && forallb (fun idx => let row := nth idx topk [] in
